@@ -233,7 +233,7 @@ class ROLEQ:
             raise ValueError("ROLEQ needs at least 2 samples of each sensor")
         Q = np.zeros((num_samples, 4))
         oleq = OLEQ(magnetic_ref=self.m_ref, frame=self.frame)
-        q_init = oleq.estimate(self.acc[0], self.mag[0]) if self.q0 is None else self.q0
+        q_init = oleq.estimate(self.acc[0], self.mag[0]) if self.q0 is None else self.q0/np.linalg.norm(self.q0)
         if q_init is None:
             raise ValueError("The initial attitude cannot be estimated: the first samples of acc and mag must be non-zero (or give q0).")
         Q[0] = q_init
